@@ -211,6 +211,7 @@ public:
 			case 'p': { std::string d = pattern_bytes((unsigned)o.b, (size_t)o.a); for (char c : d) rs.out().put(c); break; }
 			case 'L': rs.out().write(o.s1.data(), (std::streamsize)o.s1.size()); break;   // literal bytes (raw modes: the header block)
 			case 'f': rs.out() << std::flush; break;
+			case 'Z': rs.finalize(); break;                // the application finalizes the response itself (documented for asynchronous applications)
 			case 'b': rs.setbuf((int)o.a); break;
 			case 'm': rs.io_mode((cppcms::http::response::io_mode_type)o.a); break;
 			case 'a': rs.full_asynchronous_buffering(o.a != 0); break;
